@@ -412,6 +412,56 @@ def two_waiters(filtered):
     sx.reach("two-waiters")
 
 
+def two_consumers():
+    """two consumers (two nodes) in one process: callbacks, log and active list of one are not touched by frames
+    for the other"""
+    c1, c2 = emcy().EmcyConsumer(), emcy().EmcyConsumer()
+    calls1, calls2 = [], []
+    c1.add_callback(lambda e: calls1.append(e))
+    c2.add_callback(lambda e: calls2.append(e))
+    f1, f2 = _frame("f1"), _frame("f2")
+    c1.on_emcy(0x81, f1, 1)
+    c2.on_emcy(0x82, f2, 2)
+    c2.on_emcy(0x82, f1, 3)
+    tag = "C16/two-consumers"
+    sx.prove(len(calls1) == 1 and len(calls2) == 2, "each callback once per frame of its own consumer", tag + "/callbacks")
+    sx.prove(len(c1.log) == 1 and len(c2.log) == 2 and c1.log is not c2.log and c1.active is not c2.active,
+             "logs are per consumer", tag + "/logs")
+    sx.reach("two-consumers")
+
+
+def reset_keeps_listeners(kind):
+    """consumer.reset() empties the log and the active list - nothing else: callbacks registered before still run,
+    a caller already waiting still gets the next entry"""
+    cons = emcy().EmcyConsumer()
+    tag = "C16/reset-keeps/%s" % kind
+    f = _frame("f")
+    if kind == "callback":
+        calls = []
+        cons.add_callback(lambda e: calls.append(e))
+        cons.on_emcy(0x81, _frame("old"), 1)
+        cons.reset()
+        cons.on_emcy(0x81, f, 2)
+        sx.prove(len(calls) == 2, "callback registered before reset() no longer runs", tag + "/callback")
+        sx.prove(len(cons.log) == 1, "log after reset()", tag + "/log")
+    else:
+        sched = sx.scheduler()
+        parked = {}
+
+        def feeder():
+            parked["main"] = sched.main.state == "waiting"
+            cons.reset()
+            cons.on_emcy(0x81, f, 10)
+        sched.spawn(feeder, "feeder")
+        res = cons.wait(None, timeout=1)
+        sched.join()
+        if parked.get("main"):
+            sx.prove(res is not None and len(cons.log) == 1 and res is cons.log[0],
+                     "a caller waiting across reset() missed the next entry", tag + "/waiter")
+            sx.reach("reset-keeps-parked")
+    sx.reach("reset-keeps")
+
+
 def repeated_producer():
     """the producer sends what it is asked to send, every time: the same error reported again after a reset (and
     twice in a row) reaches the consumer each time"""
@@ -450,6 +500,9 @@ def jobs(tier):
         out.append(dict(func="two_waiters", params=dict(filtered=filtered), weight=50))
     out.append(dict(func="repeated_producer", params={}))
     out.append(dict(func="wait_late_match", params={}))
+    out.append(dict(func="two_consumers", params={}))
+    for kind in ("callback", "waiter"):
+        out.append(dict(func="reset_keeps_listeners", params=dict(kind=kind)))
     for nlog in range(0, 3):
         for nact in range(0, nlog + 1):
             out.append(dict(func="step", params=dict(nlog=nlog, nact=nact)))
@@ -491,7 +544,7 @@ META = dict(
                     "log entry)", "OS-thread interleavings", "data longer than 5 bytes"],
     assumptions=["fake clock: a wake-up without delivery advances time by the time-out"],
     stubs=["struct", "threading.Condition", "time", "bytes"],
-    required_reach=["step", "reset-cleared", "history", "history-reset", "long-step", "reentrant", "two-waiters", "two-waiters-parked", "producer-history", "wait-late", "producer", "producer-reset", "desc", "wait-timeout",
+    required_reach=["step", "reset-cleared", "history", "history-reset", "long-step", "reentrant", "two-waiters", "two-waiters-parked", "producer-history", "wait-late", "two-consumers", "reset-keeps", "reset-keeps-parked", "producer", "producer-reset", "desc", "wait-timeout",
                     "wait-hit", "threads-entry", "threads-none"],
     limits=dict(quick=dict(), thorough=dict(crosscheck_every=2, crosscheck_max=40)),
 )
